@@ -61,6 +61,22 @@ impl SizeManifest {
         // Validate header
         header.validate()?;
 
+        // The counts of the header are checked against the input before memory is reserved
+        // for them: every tag carries a bit mask of entry_count bits, every entry a key and
+        // an esize
+        let remaining = data
+            .len()
+            .saturating_sub(usize::try_from(cursor.position()).unwrap_or(usize::MAX));
+        let bit_mask_size = (header.entry_count() as usize).div_ceil(8);
+        if header.tag_count() > 0 && bit_mask_size > remaining {
+            return Err(SizeError::TruncatedData {
+                expected: bit_mask_size,
+                actual: remaining,
+            });
+        }
+        let min_entry_size =
+            (usize::from(header.ekey_size()) + usize::from(header.esize_bytes())).max(1);
+
         // Parse tags (between header and entries)
         let mut tags = Vec::with_capacity(header.tag_count() as usize);
         for _ in 0..header.tag_count() {
@@ -71,7 +87,8 @@ impl SizeManifest {
         }
 
         // Parse entries
-        let mut entries = Vec::with_capacity(header.entry_count() as usize);
+        let mut entries =
+            Vec::with_capacity((header.entry_count() as usize).min(remaining / min_entry_size));
         for _ in 0..header.entry_count() {
             let entry = SizeEntry::read_options(&mut cursor, binrw::Endian::Big, &header)
                 .map_err(SizeError::from)?;
